@@ -181,7 +181,7 @@ def history_cases(r, n, length) -> Cases:
 # ------------------------------------------------------------------------------------------------ sweeps
 
 def sweep_histories(sw, r, tier):
-    n = 150 if tier == "quick" else 2500
+    n = 800 if tier == "quick" else 8000
     for _ in range(n):
         ops = gen_history(r, r.randint(4, 14))
         World().run(ops, r, sw)
@@ -192,7 +192,7 @@ def directives(c):
 
 
 def sweep_to_const(sw, r, tier):
-    n = 10 if tier == "quick" else 120
+    n = 30 if tier == "quick" else 200
     for c in gen_fmt.CLASSES:
         for _ in range(n):
             x, y = gen_fmt.value_of(c, r), gen_fmt.value_of(c, r)
@@ -229,7 +229,7 @@ def sweep_to_const(sw, r, tier):
 
 
 def sweep_mappings(sw, r, tier):
-    n = 120 if tier == "quick" else 1500
+    n = 400 if tier == "quick" else 3000
     for _ in range(n):
         ks = r.sample(corr_fmt.ALL_DIRECTIVE_SPELLINGS, r.randint(1, 4))
         pool = PLAIN_TEXTS if r.random() < 0.7 else PLAIN_TEXTS + META_TEXTS
@@ -247,7 +247,7 @@ def sweep_mappings(sw, r, tier):
 
 
 def sweep_groups(sw, r, tier):
-    n = 25 if tier == "quick" else 300
+    n = 80 if tier == "quick" else 600
     for _ in range(n):
         decl = corr_fmt.group_decl(r, r.randint(2, 3))
         G = make_group({nm: corr_fmt.KINDS[k] for nm, k in decl})
@@ -340,7 +340,7 @@ def run(tier: str, drv_ok: bool) -> dict:
     if drv_ok:
         r = rng("C15corr")
         cs = corr_fmt.const_cases(r, 60 if tier == "quick" else 600)
-        hc = history_cases(r, 80 if tier == "quick" else 1200, 12)
+        hc = history_cases(r, 300 if tier == "quick" else 3000, 12)
         tc = toconst_cases(r, 12 if tier == "quick" else 150)
         for x in (hc, tc):
             cs.lines += x.lines; cs.exp += x.exp; cs.desc += x.desc; cs.ops.update(x.ops); cs.kinds.update(x.kinds)
